@@ -13,9 +13,39 @@ pub mod proto;
 static GLOBAL: alloc_ledger::Ledger = alloc_ledger::Ledger;
 pub mod sinkops;
 
+/// With `H5V_LOG=1` a `log` logger is installed that accepts every level and formats every record (into nothing):
+/// the arguments of the library's `debug!` / `trace!` / `warn!` statements are evaluated, as they are in an application
+/// that runs with `RUST_LOG=trace`.  The result of a case must not depend on it.
+struct EvalLogger;
+
+struct Discard;
+
+impl std::fmt::Write for Discard {
+    fn write_str(&mut self, _: &str) -> std::fmt::Result {
+        Ok(())
+    }
+}
+
+impl log::Log for EvalLogger {
+    fn enabled(&self, _: &log::Metadata) -> bool {
+        true
+    }
+    fn log(&self, record: &log::Record) {
+        use std::fmt::Write as _;
+        let _ = write!(Discard, "{}", record.args());
+    }
+    fn flush(&self) {}
+}
+
+static EVAL_LOGGER: EvalLogger = EvalLogger;
+
 fn main() {
     // silence panic messages: a panic is reported as a protocol value
     panic::set_hook(Box::new(|_| {}));
+    if std::env::var("H5V_LOG").map(|v| v == "1").unwrap_or(false) {
+        let _ = log::set_logger(&EVAL_LOGGER);
+        log::set_max_level(log::LevelFilter::Trace);
+    }
     // watchdog: a case that runs longer than H5V_CASE_TIMEOUT seconds (default 60) is reported as
     // `HANG` and the process exits with code 3 (the driver script bisects down to the case)
     let limit: u64 = std::env::var("H5V_CASE_TIMEOUT").ok().and_then(|s| s.parse().ok()).unwrap_or(60);
